@@ -29,6 +29,7 @@ type c22Req struct {
 }
 
 type c22Plan struct {
+	Concurrent bool  `json:"concurrent_requests,omitempty"` // handler mode: all requests at once, each on its own connection
 	Mode    string   `json:"mode"` // handler | load
 	Wrapper string   `json:"wrapper"`
 	Level   int      `json:"level"`
@@ -71,6 +72,16 @@ func scenC22(e *Env) func() {
 			e.Cfg.StarveFrom, e.Cfg.StarveTo = 0, 1 << 30
 		}
 		e.Cfg.MaxSteps = 1200000
+	}
+	if p.Mode == "handler" {
+		p.Concurrent = e.Chance(35)
+		if e.Chance(12) {
+			// flavour: a streamed brotli response, then a streamed gzip response, with the two
+			// levels two apart (pooled writer objects of the two codecs must never meet)
+			b := Pick(e, 11, 8, 4)
+			p.Wrapper, p.BrLevel, p.Level, p.Concurrent = "brotli", b, b-2, false
+			p.Reqs = append([]c22Req{{ID: "f0", AE: "br", Size: 5000, Stream: true, Method: "GET"}, {ID: "f1", AE: "gzip", Size: 5000, Stream: true, Method: "GET"}, {ID: "f2", AE: "br", Size: 3000, Stream: true, Method: "GET"}}, p.Reqs...)
+		}
 	}
 	e.Sample = p
 	if p.Mode == "handler" {
@@ -168,9 +179,16 @@ func c22Handler(e *Env, p *c22Plan) {
 	k := NewServerKit(e, s)
 	k.Handle = func(ctx *fasthttp.RequestCtx, inv *Inv) { h(ctx) }
 	k.Start()
-	for _, r := range p.Reqs {
+	type fetched struct {
+		resp *Resp
+		err  error
+	}
+	results := make([]fetched, len(p.Reqs))
+	fetch := func(i int) {
+		r := p.Reqs[i]
 		sc, err := k.NewSeqClient("10.0.22.1", simnet.Faults{})
 		if err != nil {
+			results[i].err = err
 			return
 		}
 		ae := ""
@@ -178,8 +196,25 @@ func c22Handler(e *Env, p *c22Plan) {
 			ae = "Accept-Encoding: " + r.AE + "\r\n"
 		}
 		sc.Send([]byte(fmt.Sprintf("%s /z?id=%s HTTP/1.1\r\nHost: x\r\n%s\r\n", r.Method, r.ID, ae)), nil)
-		resp, _, err := sc.ReadResp(r.Method, time.Minute)
+		results[i].resp, _, results[i].err = sc.ReadResp(r.Method, time.Minute)
 		sc.C.Close()
+	}
+	if p.Concurrent {
+		var fsx []func()
+		for i := range p.Reqs {
+			i := i
+			fsx = append(fsx, func() { fetch(i) })
+		}
+		if !WaitAll(time.Hour, "req", fsx...) {
+			e.Violation("liveness/compress", "concurrent requests through CompressHandler did not finish")
+			return
+		}
+	}
+	for i, r := range p.Reqs {
+		if !p.Concurrent {
+			fetch(i)
+		}
+		resp, err := results[i].resp, results[i].err
 		e.Ob(1)
 		tag := fmt.Sprintf("req %s (%s, AE %q, size %d, streamed %v, preset CE %q, wrapper %s level %d/%d)", r.ID, r.Method, r.AE, r.Size, r.Stream, r.PreEnc, p.Wrapper, p.Level, p.BrLevel)
 		if err != nil || resp == nil {
